@@ -869,6 +869,7 @@ func runC09(c *Ctx) {
 	// remote label value set is the shared constant
 	_ = fns
 
+	clauseMountRegistrationRolledBack(c, "C09.g")
 	c.clause("C09.f", "T5", "orphans are reclaimable: the cleanup scan lists every directory and keeps exactly the ids in storage.IDMap", 2)
 	if f := c.mustFn(snapPkg, "(*snapshotter).getCleanupDirectories"); f != nil {
 		idm := callsIn(f, func(id string, _ ssa.CallInstruction) bool { return strings.HasSuffix(id, "storage.IDMap") })
